@@ -69,7 +69,7 @@ def schedule(tr, hazards=True):
     return W
 
 
-def pipe_retire(spec, hazards=True, maxsteps=4000):
+def pipe_retire(spec, hazards=True, maxsteps=4000, by_steps=False):
     """(retire list [(addr, cycle)], total cycles, stalls-by-ID seen) of the five-stage implementation; None on fault/hang"""
     sim = make_sim(spec, "five_stage_pipeline", hazards)
     out = []
@@ -86,7 +86,7 @@ def pipe_retire(spec, hazards=True, maxsteps=4000):
             id_stall = True
         a = p.pipeline_registers[4].address_of_instruction
         if a is not None:
-            out.append((a, sim.state.performance_metrics.cycles))
+            out.append((a, n if by_steps else sim.state.performance_metrics.cycles))
     if not sim.is_done():
         return None
     return out, sim.state.performance_metrics.cycles, id_stall, sim
